@@ -125,6 +125,12 @@ var c13cmp = gen.Register(&gen.Check[caseC13cmp]{
 				out = append(out, caseC13cmp{S: h(a), T: h(b), Rel: "fixed"})
 			}
 		}
+		// values aimed at the constants found in the sources of the tree under test, against themselves and their neighbours
+		for _, v := range gen.DictFixed(ref.N, gen.DictStride()) {
+			up := new(big.Int).Mod(new(big.Int).Add(v, big.NewInt(1)), ref.N)
+			out = append(out, caseC13cmp{S: h(v), T: h(up), Rel: "dictionary"}, caseC13cmp{S: h(up), T: h(v), Rel: "dictionary"},
+				caseC13cmp{S: SV{Hex: gen.H(v), Mont: true}, T: h(new(big.Int).Rsh(ref.N, 2)), Rel: "dictionary"})
+		}
 		return out
 	},
 	Required: []string{"rel:equal-computed", "rel:canon-words", "rel:equal", "rel:adjacent", "rel:canon-limb", "rel:mont-limb", "rel:random", "s<t", "s>t"},
